@@ -664,11 +664,113 @@ def quantize_fold(V, dtype, shift, n, zptype):
         return cl
 
 
+def _ref_sat16(x):
+    return z3.If(x < _c(I16MIN), _c(I16MIN), z3.If(x > _c(I16MAX), _c(I16MAX), x))
+
+
+def hardswish_table(V, dtype, code, relu_shift, out_shift, zptype, zp_in_value, abstract_mul=False):
+    """convert_hardswish_to_lut: one table entry == the TFLite(-Micro) reference HardSwish recipe on int16 fixed point
+    (reference_ops.h: hires input = (x - zp) << 7; SaturatingRoundingDoublingHighMul with the int16 output multiplier; reluish value
+    through SaturatingLeftShift / SRDHM / RoundingDivideByPOT; (v + 2^15) >> 1; SaturatingDoublingHighMul; RoundingDivideByPOT; + zp;
+    clamp).  Symbolic: both Q31 multipliers, both zero points; enumerated: code, the two shifts, zero point type.  All 16-bit
+    products are bit-blasted (no abstraction)."""
+    import ethosu.vela.tflite_graph_optimiser as go
+    import ethosu.vela.fp_math as m
+    from ethosu.vela.data_type import DataType
+    from ethosu.vela.operation import Op
+
+    # quick tier: the one symbolic x symbolic 16-bit product (reluish value x pre-shift output) is a shared uninterpreted function with
+    # the bound |a*b| <= 2^30; the thorough tier bit-blasts it
+    npint.ABSTRACT_MUL = bool(abstract_mul) and V.symbolic
+    npint.MUL_BOUND = 1 << 30
+    try:
+        with _width(96):
+            return _hardswish_table(V, go, m, DataType, Op, dtype, code, relu_shift, out_shift, zptype, zp_in_value)
+    finally:
+        npint.ABSTRACT_MUL = False
+        npint.MUL_BOUND = None
+
+
+def _hardswish_table(V, go, m, DataType, Op, dtype, code, relu_shift, out_shift, zptype, zp_in_value):
+    if True:
+        qmin, qmax = (0, 255) if dtype == "uint8" else (-128, 127)
+        with core.shims(*(_shims() + ((go, {"min": _smin, "max": _smax, "int": npint.sint_shim, "np": npint.SNUMPY}),))):
+            out_scale, w_os = _operand(V, "out_scale", "pyint", 1 << 30, (1 << 31) - 1)
+            relu_scale, w_rs = _operand(V, "relu_scale", "pyint", 1 << 30, (1 << 31) - 1)
+            # the input zero point is enumerated: (code - zero point) is then concrete and every product has at most one 16x16 symbolic
+            # multiplier to bit-blast (exact, no abstraction); multipliers and the output zero point stay symbolic
+            import numpy as _np
+
+            zp_in = zp_in_value if zptype == "pyint" else (SNp(z3.BitVecVal(zp_in_value, 64), 64, True) if V.symbolic else _np.int64(zp_in_value))
+            w_zi = _c(zp_in_value)
+            zp_out, w_zo = _operand(V, "zp_out", zptype, qmin, qmax)
+            dt = DataType.uint8 if dtype == "uint8" else DataType.int8
+            ifm = _Obj(dtype=dt, quantization=_Obj(scale_f32=0.02, zero_point=zp_in))
+            ofm = _Obj(dtype=dt, quantization=_Obj(scale_f32=0.01, zero_point=zp_out))
+            op = _Obj(type=Op.HardSwish, get_ifm_ofm=lambda: (ifm, ofm))
+            pairs = iter([(out_scale, out_shift), (relu_scale, relu_shift)])
+            captured = {}
+            sel = {code}
+
+            class _Codes:
+                def __init__(self, r):
+                    self.r, self.n = r, 0
+
+                def __iter__(self):
+                    self.n += 1
+                    return iter(self.r) if self.n <= 2 else iter([x for x in self.r if x in sel])
+
+            def crange(*a):
+                import builtins
+
+                r = builtins.range(*a)
+                return _Codes(r) if len(r) == 256 else r
+
+            saved = (go.convert_to_lut, go.scaling.quantise_scale, getattr(go, "range", None))
+            go.convert_to_lut = lambda op_, values, name: captured.setdefault("values", list(values))
+            go.scaling.quantise_scale = lambda x: next(pairs)
+            go.range = crange
+            try:
+                go.convert_hardswish_to_lut(op, None, None)
+            except (OverflowError, AssertionError, TypeError) as e:
+                return [("convert_hardswish_to_lut raised %s: %s" % (type(e).__name__, str(e)[:100]), False)]
+            finally:
+                go.convert_to_lut, go.scaling.quantise_scale = saved[:2]
+                if saved[2] is None:
+                    del go.range
+                else:
+                    go.range = saved[2]
+        vals = captured.get("values")
+        if vals is None or len(vals) != 1:
+            return [("one table entry produced", False)]
+        # ---- TFLite reference recipe
+        out16 = ref_downscale(w_os)
+        relu16 = ref_downscale(w_rs)
+        iv = _c(code) - w_zi
+        hires = iv << 7
+        pre = ref_srdhm(hires, out16, 16)
+        rv = hires
+        exp_r = 31 - relu_shift
+        if exp_r > 0:
+            rv = ref_shl_sat(rv, exp_r - 1, 16)
+        rv = ref_srdhm(rv, relu16, 16)
+        if exp_r > 0:
+            rv = ref_shl_sat(rv, 1, 16)
+        if exp_r < 0:
+            rv = ref_rdbp(rv, -exp_r)
+        rv = (rv + _c(1 << 15)) >> 1
+        prod = ref_sat_mul16_trunc(rv, pre)
+        sh = 31 - out_shift
+        res = ref_rdbp(prod, -sh if sh < 0 else 0) + w_zo
+        res = z3.If(res < _c(qmin), _c(qmin), z3.If(res > _c(qmax), _c(qmax), res))
+        return [("hard-swish table[%d] == TFLite reference recipe" % code, npint.wide(vals[0]) == res)]
+
+
 CAPS = {"quick": {}, "thorough": {}}
 RLIMIT = 2_000_000_000  # the 32x32->64 multiplier equivalences need far more solver resource than the engine default
 
 FUNCS = {"kernel": kernel, "mbqm": mbqm, "exp_interval": exp_interval, "exp_neg": exp_neg, "exp_neg_struct": exp_neg_struct,
-         "lrelu_table": lrelu_table, "quantize_fold": quantize_fold}
+         "lrelu_table": lrelu_table, "quantize_fold": quantize_fold, "hardswish_table": hardswish_table}
 
 
 def instances(tier, seed):
@@ -725,6 +827,15 @@ def instances(tier, seed):
                         for code in codes:  # one table entry per instance: the per-entry body forks on rounding decisions
                             out.append(dict(key="lrelu_table/%s/zp%d/sh%d_%d/%s/%s/code%d" % (dtype, zp_in, ish, ash, "prelu" if scaled else "plain", zptype, code),
                                             fn="lrelu_table", params=dict(dtype=dtype, zp_in=zp_in, id_shift=ish, al_shift=ash, scaled=scaled, codes=[code], zptype=zptype)))
+    for dtype in ("int8", "uint8"):
+        qmin = 0 if dtype == "uint8" else -128
+        for relu_shift in ((27, 33) if quick else (25, 27, 29, 31, 32, 33, 35)):
+            for out_shift in ((31, 34) if quick else (30, 31, 32, 34, 37)):
+                for code in ((qmin + 127 + seed % 3, qmin + 255) if quick else range(qmin, qmin + 256, 17)):
+                    for zptype in ("int64", "pyint"):
+                        for zpi in ((qmin + 125,) if quick else (qmin, qmin + 125, qmin + 255)):
+                            out.append(dict(key="hardswish_table/%s/r%d_o%d/%s/zp%d/code%d" % (dtype, relu_shift, out_shift, zptype, zpi, code), fn="hardswish_table",
+                                            params=dict(dtype=dtype, code=code, relu_shift=relu_shift, out_shift=out_shift, zptype=zptype, zp_in_value=zpi, abstract_mul=False), weight=30))
     for dtype in ("int8", "int16"):
         for shift in ((29, 31, 34) if quick else (26, 28, 29, 30, 31, 32, 34, 38)):
             for zptype in ("int64", "pyint"):
